@@ -354,7 +354,7 @@ def schema_and_value(rng, **kw):
     """a valid schema together with a conforming value (evalue sexp); retries until one exists"""
     for _ in range(50):
         g = SchemaGen(rng, max_nodes=kw.get("max_nodes", rng.choice([2, 5, 10, 16])),
-                      max_depth=kw.get("max_depth", rng.choice([1, 3, 5])))
+                      max_depth=kw.get("max_depth", rng.choice([1, 3, 5])), logical=kw.get("logical", True))
         nodes = g.build()
         vg = ValueGen(rng, nodes, layouts=kw.get("layouts", True))
         v = vg.gen(0)
